@@ -981,4 +981,219 @@ end Reduction
 def spliceParens (toks : Array PTok) (a b : Nat) (lp rp : PTok) : Array PTok :=
   toks.extract 0 a ++ #[lp] ++ toks.extract a b ++ #[rp] ++ toks.extract b toks.size
 
+/-! ## Parentheses around an ARGUMENT that is an atom (the applications pass)
+
+`RewriteMore.paren_operand` (`C19_paren_operand`) covers the two binary-operator families; this is the
+same statement for the `Application` arm of `reassociate_applications`: `f x` against `f (x)`. -/
+
+section Argument
+open RewriteMore
+
+def appNF (acc : Option (Src × Link)) (g : Bool) (f' a : Src) : Src :=
+  match acc, g with
+  | none, _ => .mk ⟨0, 0⟩ false (.app (strip f') (strip a)) []
+  | some (ac, l), true =>
+      .mk ⟨0, 0⟩ false (l.build (strip ac) (.mk ⟨0, 0⟩ false (.app (strip f') (strip a)) [])) []
+  | some (ac, l), false =>
+      .mk ⟨0, 0⟩ false (.app (.mk ⟨0, 0⟩ false (l.build (strip ac) (strip f')) []) (strip a)) []
+
+theorem build_app (a b : Src) : Link.app.build a b = .app a b := rfl
+
+theorem reassoc_app_norm (acc : Option (Src × Link)) (r : SourceRange) (g : Bool)
+    (f a : Src) (es : List PErr) (ha : Kept .applications a) (hf : Opaque .applications f) :
+    (reassoc .applications acc (.mk r g (.app f a) es)).map strip =
+      (reassoc .applications none f).map (fun f' => appNF acc g f' a) := by
+  rw [reassoc]
+  simp only [if_true]
+  have ha' : ∀ acc, reassoc .applications acc a = some (reassocTail acc a) := ha
+  simp only [ha']
+  cases acc with
+  | none =>
+    simp only [Option.isSome, Bool.false_and, Bool.false_eq_true, if_false]
+    cases reassoc .applications none f with
+    | none => simp
+    | some f' =>
+      by_cases hg : a.group = true <;> simp [hg, reassocTail, strip, stripV, appNF, build_app]
+  | some p =>
+    obtain ⟨ac, l⟩ := p
+    have hf' := hf (some (ac, l))
+    dsimp only
+    cases g with
+    | true =>
+      simp only [Option.isSome, Bool.and_self, if_true]
+      cases reassoc .applications none f with
+      | none => simp
+      | some f' =>
+        by_cases hg : a.group = true <;>
+          simp [hg, reassocTail, strip, stripV, appNF, stripV_build, build_app]
+    | false =>
+      simp only [Bool.and_false, Bool.false_eq_true, if_false, hf']
+      cases reassoc .applications none f with
+      | none => simp
+      | some f' =>
+        by_cases hg : a.group = true <;>
+          simp [hg, reassocTail, strip, stripV, appNF, stripV_build, build_app]
+
+/-- **Parentheses around an argument**: in an application node met by the applications pass with any
+accumulator and any `group` flag, an argument the pass keeps as it is (an atom, whatever its `group`
+flag) may be replaced by one that differs only in ranges and `group` flag (the atom in parentheses):
+the result is the same up to ranges, `group` flags and error lists, provided the applicand is opaque
+to the pass (an atom or a parenthesised application — what the grammar allows there). -/
+theorem paren_argument (acc : Option (Src × Link)) (r : SourceRange) (g : Bool)
+    (f a a' : Src) (es : List PErr) (ha : Kept .applications a) (ha' : Kept .applications a')
+    (hs : strip a' = strip a) (hf : Opaque .applications f) :
+    (reassoc .applications acc (.mk r g (.app f a') es)).map strip =
+      (reassoc .applications acc (.mk r g (.app f a) es)).map strip := by
+  rw [reassoc_app_norm acc r g f a' es ha' hf, reassoc_app_norm acc r g f a es ha hf]
+  congr 1
+  funext f'
+  cases acc with
+  | none => simp only [appNF, hs]
+  | some p => obtain ⟨ac, l⟩ := p; cases g <;> simp only [appNF, hs]
+
+/-- a parenthesised application is opaque to the applications pass -/
+theorem opaque_grouped_app (r : SourceRange) (f a : Src) (es : List PErr) :
+    Opaque .applications (.mk r true (.app f a) es) := by
+  intro acc
+  cases acc with
+  | none => cases reassoc .applications none (.mk r true (.app f a) es) <;> rfl
+  | some p =>
+    obtain ⟨ac, l⟩ := p
+    rw [reassoc, reassoc]
+    simp only [if_true, Option.isSome, Bool.and_self]
+    simp only [Bool.false_and, Bool.false_eq_true, if_false]
+    generalize (if a.group = true then _ else _ : Option Src) = X
+    cases X <;> rfl
+
+end Argument
+
+/-! ## Parentheses around an operand / argument that is ANY term opaque to the pass
+
+Generalises `RewriteMore.paren_operand` / `paren_argument` from atoms to every operand the pass does
+not enter with its accumulator: atoms, nodes outside the family (`opaque_nonfam`), parenthesised
+chains.  E.g. `a + f x` against `a + (f x)` in the sums pass, `f (g x)` against `f ((g x))`. -/
+
+section OpaqueOperand
+open RewriteMore
+
+/-- is the node a link of the family's chains? -/
+def famNode (fam : Family) : SrcV → Bool
+  | .app _ _ => decide (fam = .applications)
+  | .bin o _ _ => decide ((fam = .productsAndQuotients ∧ (o = .prod ∨ o = .quot))
+      ∨ (fam = .sumsAndDifferences ∧ (o = .sum ∨ o = .diff)))
+  | _ => false
+
+/-- every node outside the family is opaque to the pass, whatever its `group` flag -/
+theorem opaque_nonfam (fam : Family) (r : SourceRange) (g : Bool) (v : SrcV) (es : List PErr)
+    (h : famNode fam v = false) : Opaque fam (.mk r g v es) := by
+  intro acc
+  cases v
+  case app f a =>
+    simp only [famNode, decide_eq_false_iff_not] at h
+    rw [reassoc, reassoc]
+    simp only [h, if_false]
+    cases reassoc fam none f <;> cases reassoc fam none a <;> rfl
+  case bin o a b =>
+    simp only [famNode, decide_eq_false_iff_not] at h
+    rw [reassoc, reassoc]
+    simp only [h, if_false]
+    cases reassoc fam none a <;> cases reassoc fam none b <;> rfl
+  case lam x imp dom body =>
+    rw [reassoc, reassoc]
+    cases reassocOpt fam dom <;> cases reassoc fam none body <;> rfl
+  case pi x imp dom cod =>
+    rw [reassoc, reassoc]
+    cases reassoc fam none dom <;> cases reassoc fam none cod <;> rfl
+  case let_ x ann d b =>
+    rw [reassoc, reassoc]
+    cases reassocOpt fam ann <;> cases reassoc fam none d <;> cases reassoc fam none b <;> rfl
+  case neg a =>
+    rw [reassoc, reassoc]
+    cases reassoc fam none a <;> rfl
+  case ite c a b =>
+    rw [reassoc, reassoc]
+    cases reassoc fam none c <;> cases reassoc fam none a <;> cases reassoc fam none b <;> rfl
+  all_goals (rw [reassoc, reassoc]; rfl)
+
+theorem reassoc_bin_norm' (fam : Family) (acc : Option (Src × Link)) (r : SourceRange) (g : Bool)
+    (o : BinOp) (a b : Src) (es : List PErr)
+    (ho : (fam = .productsAndQuotients ∧ (o = .prod ∨ o = .quot))
+        ∨ (fam = .sumsAndDifferences ∧ (o = .sum ∨ o = .diff)))
+    (hb : Opaque fam b) (ha : Opaque fam a) :
+    (reassoc fam acc (.mk r g (.bin o a b) es)).map strip =
+      (reassoc fam none a).bind (fun a' => (reassoc fam none b).map (fun b' => binNF o acc g a' b')) := by
+  rw [reassoc]
+  simp only [ho, if_true]
+  have hb' : ∀ p, reassoc fam (some p) b = (reassoc fam none b).map (reassocTail (some p)) :=
+    fun p => hb (some p)
+  simp only [hb']
+  cases acc with
+  | none =>
+    simp only [Option.isSome, Bool.false_and, Bool.false_eq_true, if_false]
+    cases reassoc fam none a with
+    | none => simp
+    | some a' =>
+      cases reassoc fam none b with
+      | none => by_cases hg : b.group = true <;> simp [hg]
+      | some b' =>
+        by_cases hg : b.group = true <;> simp [hg, reassocTail, strip, stripV, binNF, build_op]
+  | some p =>
+    obtain ⟨ac, l⟩ := p
+    have ha' := ha (some (ac, l))
+    dsimp only
+    cases g with
+    | true =>
+      simp only [Option.isSome, Bool.and_self, if_true]
+      cases reassoc fam none a with
+      | none => simp
+      | some a' =>
+        cases reassoc fam none b with
+        | none => by_cases hg : b.group = true <;> simp [hg]
+        | some b' =>
+          by_cases hg : b.group = true <;>
+            simp [hg, reassocTail, strip, stripV, binNF, stripV_build, build_op]
+    | false =>
+      simp only [Bool.and_false, Bool.false_eq_true, if_false, ha']
+      cases reassoc fam none a with
+      | none => simp
+      | some a' =>
+        cases reassoc fam none b with
+        | none => by_cases hg : b.group = true <;> simp [hg]
+        | some b' =>
+          by_cases hg : b.group = true <;>
+            simp [hg, reassocTail, strip, stripV, binNF, stripV_build, build_op]
+
+/-- **Parentheses around any opaque operand**: the right operand `b` of a chain node of the family
+may be replaced by any `b'` that is opaque too and that the pass takes to the same result up to
+ranges / flags / error lists — whatever the accumulator and the `group` flags. -/
+theorem paren_operand_opaque (fam : Family) (acc : Option (Src × Link)) (r : SourceRange) (g : Bool)
+    (o : BinOp) (a b b' : Src) (es : List PErr)
+    (ho : (fam = .productsAndQuotients ∧ (o = .prod ∨ o = .quot))
+        ∨ (fam = .sumsAndDifferences ∧ (o = .sum ∨ o = .diff)))
+    (hb : Opaque fam b) (hb' : Opaque fam b')
+    (hs : (reassoc fam none b').map strip = (reassoc fam none b).map strip) (ha : Opaque fam a) :
+    (reassoc fam acc (.mk r g (.bin o a b') es)).map strip =
+      (reassoc fam acc (.mk r g (.bin o a b) es)).map strip := by
+  rw [reassoc_bin_norm' fam acc r g o a b' es ho hb' ha, reassoc_bin_norm' fam acc r g o a b es ho hb ha]
+  congr 1
+  funext a'
+  cases e' : reassoc fam none b' with
+  | none =>
+    rw [e'] at hs
+    cases e : reassoc fam none b with
+    | none => rfl
+    | some _ => rw [e] at hs; cases hs
+  | some x' =>
+    rw [e'] at hs
+    cases e : reassoc fam none b with
+    | none => rw [e] at hs; cases hs
+    | some x =>
+      rw [e] at hs
+      simp only [Option.map_some, Option.some.injEq] at hs ⊢
+      cases acc with
+      | none => simp only [binNF, hs]
+      | some p => obtain ⟨ac, l⟩ := p; cases g <;> simp only [binNF, hs]
+
+end OpaqueOperand
+
 end ParenTokens
